@@ -377,15 +377,15 @@ func main() {
 	}
 	locus2 = append(locus2, "0000", "8001")
 	configs := []config{
-		{name: "L00-max3-min0-ttl", locus: []byte{0}, max: 3, min: 0, keys: hexKeys("80", "c0", "40", "01", "00"), ttls: []int{0, 1, 2}, ticks: 2, update: true, depthQ: 5, depthT: 7},
-		{name: "La5-max1-min0-ttl", locus: []byte{0xa5}, max: 1, min: 0, keys: hexKeys("a5", "25", "e5", "a4", "a501"), ttls: []int{0, 1}, ticks: 2, update: true, depthQ: 6, depthT: 30},
+		{name: "L00-max3-min0-ttl", locus: []byte{0}, max: 3, min: 0, keys: hexKeys("80", "c0", "40", "01", "00"), ttls: []int{0, 1, 2}, ticks: 2, update: true, depthQ: 6, depthT: 7},
+		{name: "La5-max1-min0-ttl", locus: []byte{0xa5}, max: 1, min: 0, keys: hexKeys("a5", "25", "e5", "a4", "a501"), ttls: []int{0, 1}, ticks: 2, update: true, depthQ: 8, depthT: 30},
 		{name: "L00-max0", locus: []byte{0}, max: 0, min: 0, keys: hexKeys("80", "00"), ttls: []int{0, 1}, ticks: 1, update: true, depthQ: 6, depthT: 6},
-		{name: "L00-max2-min0-short-and-long-keys", locus: []byte{0}, max: 2, min: 0, keys: hexKeys("", "00", "0001", "80", "8000"), ttls: []int{0, 1}, ticks: 1, update: true, depthQ: 6, depthT: 30},
+		{name: "L00-max2-min0-short-and-long-keys", locus: []byte{0}, max: 2, min: 0, keys: hexKeys("", "00", "0001", "80", "8000"), ttls: []int{0, 1}, ticks: 1, update: true, depthQ: 8, depthT: 30},
 		{name: "L00-max8-min1-boundary", locus: []byte{0}, max: 8, min: 1, keys: hexKeys(append(perBucket1, "c0")...), ttls: []int{0}, depthQ: 12, depthT: 40},
 		{name: "L00-max9-min1", locus: []byte{0}, max: 9, min: 1, keys: hexKeys(append(perBucket1, "c0", "60")...), ttls: []int{0}, depthQ: 13, depthT: 40},
-		{name: "L00-max8-min1-expiry", locus: []byte{0}, max: 8, min: 1, keys: hexKeys("80", "c0", "a0", "40", "00"), ttls: []int{0, 1}, ticks: 2, update: true, depthQ: 5, depthT: 30},
-		{name: "L0000-max16-min1-boundary", locus: []byte{0, 0}, max: 16, min: 1, keys: hexKeys(locus2...), ttls: []int{0}, depthQ: 0, depthT: 40},
-		{name: "L00-max16-min2-boundary", locus: []byte{0}, max: 16, min: 2, keys: hexKeys(twoPer...), ttls: []int{0}, depthQ: 0, depthT: 40},
+		{name: "L00-max8-min1-expiry", locus: []byte{0}, max: 8, min: 1, keys: hexKeys("80", "c0", "a0", "40", "00"), ttls: []int{0, 1}, ticks: 2, update: true, depthQ: 6, depthT: 30},
+		{name: "L0000-max16-min1-boundary", locus: []byte{0, 0}, max: 16, min: 1, keys: hexKeys(locus2...), ttls: []int{0}, depthQ: 5, depthT: 40},
+		{name: "L00-max16-min2-boundary", locus: []byte{0}, max: 16, min: 2, keys: hexKeys(twoPer...), ttls: []int{0}, depthQ: 5, depthT: 40},
 	}
 	totalStates, totalTrans := 0, 0
 	allExhaustive := true
@@ -397,7 +397,7 @@ func main() {
 			continue
 		}
 		ops := alphabet(c)
-		maxStates := evid.Pick(run, 150_000, 3_000_000)
+		maxStates := evid.Pick(run, 600_000, 3_000_000)
 		step := func(path []int) (string, bool, bool) {
 			w := newWorld(c)
 			for i, oi := range path {
